@@ -353,7 +353,7 @@ Proof.
                1 <= lastz row /\ nthZ (flatten (all_cells true rows)) (lastz row - 1) = 13).
     { intros row Hin. pose proof (crlf_before_eol rows (fun r Hr => proj1 (H r Hr)) [] [] row) as P.
       rewrite len_nil, app_nil_r in P. simpl app in P. apply P. exact Hin. }
-    unfold cr_adjust. destruct rows as [|r rows]; [congruence|].
+    unfold cr_adjust, m_cr_probe, m_cr_adjust, m_cr_byte. destruct rows as [|r rows]; [congruence|].
     simpl ends_rows. simpl ends_rows in Hall.
     destruct (Hall _ (or_introl eq_refl)) as [H1 H13].
     set (file := flatten (all_cells true (r :: rows))) in *.
@@ -365,7 +365,7 @@ Proof.
     apply map_ext_in. intros row Hin. destruct (Hall row Hin) as [Ha Hb].
     unfold adj, py_get. destruct (Z.ltb_spec (lastz row - 1) 0); [lia|]. rewrite Hb, Z.eqb_refl. reflexivity.
   - (* LF: nothing to adjust *)
-    unfold adj. rewrite map_id. unfold cr_adjust.
+    unfold adj. rewrite map_id. unfold cr_adjust, m_cr_probe, m_cr_byte.
     destruct (ends_rows false 0 rows) as [|r0 rest] eqn:E; [reflexivity|].
     destruct ((len (flatten (all_cells false rows)) =? 0) || (lastz r0 =? 0)); [reflexivity|].
     destruct (Z.eqb_spec (nthZ (flatten (all_cells false rows)) (lastz r0 - 1)) 13) as [E13|]; [|reflexivity].
@@ -433,7 +433,7 @@ Proof.
       destruct (Hlen r Hr) as [A B]. rewrite row_cells_length; assumption. }
   assert (Hpsne : ps <> []).
   { intro E. rewrite E, HR in Hpslen. simpl length in Hpslen. lia. }
-  unfold delim_table. rewrite Hdel, Hee, HR. cbn [nlist].
+  unfold delim_table, m_n_fields, m_size, m_keep, m_sentinel, m_start. rewrite Hdel, Hee, HR. cbn [nlist].
   replace (0 + n - 1 + 1) with n by lia.
   change ((0 + n - 1) :: nlist (0 + n) n (length rows')) with (nlist 0 n (S (length rows'))).
   assert (Hlz : lastz (nlist 0 n (S (length rows'))) = len (dpos 0 ps) - 1).
